@@ -559,6 +559,16 @@ func runC06(c *Ctx) {
 		c.Pred("include", "include-tree-relative-paths", main, res == "ok" && strings.Join(got, " ") == strings.Join(want, " "),
 			res+" "+strings.Join(got, " "), strings.Join(want, " "), true)
 	}
+	// no TTL stated anywhere and no default configured: whether the class is written or omitted, and whether the owner is
+	// written or repeated, does not change the result — the record is refused for want of a TTL
+	for _, z := range []string{"foo A 192.0.2.1\n", "foo IN A 192.0.2.1\n", "foo CH A 192.0.2.1\n", "foo A 192.0.2.1\n  IN A 192.0.2.2\n", "foo IN A 192.0.2.1\n foo2 A 192.0.2.2\n", "foo IN ( A 192.0.2.1 )\n"} {
+		recs, res := parseZone("$ORIGIN example.org.\n"+z, "", -1, nil)
+		key := "missing-ttl-refused:class-omitted"
+		if strings.Contains(z, " IN ") || strings.Contains(z, " CH ") {
+			key = "missing-ttl-refused:class-written" // known finding F35: accepted with TTL 0, pinned by the suite
+		}
+		c.Pred("ttl", key, "zone="+hxs(z), strings.HasPrefix(res, "err") && len(recs) == 0, res+" "+strings.Join(recs, " | "), "error: missing TTL", true)
+	}
 	// the lines a $GENERATE expands to take an omitted TTL like any other line: the $TTL value, else the most recently
 	// stated TTL, else the configured default
 	for _, tc := range []struct {
